@@ -32,6 +32,33 @@ type vhList struct {
 
 var vhLists []*vhList
 
+// vhFunc describes one function that has a payload field in CmdType (generated).
+type vhFunc struct {
+	Function, CmdField, Payload string
+	NewPayload                  func() any
+	NewSel, NewElem             func() any
+	ElemShared                  bool
+}
+
+var vhFuncs []*vhFunc
+
+// VHFunc is the exported view used by the harnesses in package spine.
+type VHFunc struct {
+	Function        FunctionType
+	Payload         string
+	NewPayload      func() any
+	NewSel, NewElem func() any
+	ElemShared      bool
+}
+
+func VHFuncs() []VHFunc {
+	var out []VHFunc
+	for _, f := range vhFuncs {
+		out = append(out, VHFunc{FunctionType(f.Function), f.Payload, f.NewPayload, f.NewSel, f.NewElem, f.ElemShared})
+	}
+	return out
+}
+
 func vhListByName(name string) *vhList {
 	for _, l := range vhLists {
 		if l.Name == name {
